@@ -23,6 +23,7 @@
 //@import C15_codecvt.cpp
 //@import C03_leaf.cpp
 //@import C02_entry.cpp
+//@import C16_string.cpp only=^h_join_
 //@models rbtree
 #include "C06_arith.cpp"
 #include <fcppt/args_vector.hpp>
